@@ -147,7 +147,9 @@ class Real:
             elif attr == "properties":
                 out[attr] = dict((k, v) for k, v in val)
             elif attr == "field_schema":
-                out[attr] = [self.classes[j] for j in val]
+                # user-supplied members: Integer classes named arbitrarily, some optional
+                import flatland
+                out[attr] = [flatland.Integer.named(n).using(optional=o) for n, o in val]
             else:
                 out[attr] = val
         return out
@@ -276,7 +278,8 @@ def _behaviour(cls):
         kids = [k.name for k in el.children] if hasattr(el, "children") else []
         return {"flat": [[k, v] for k, v in el.flatten()] if el.flattenable or kids else [],
                 "valid": bool(el.validate()), "kids": kids, "optional": bool(el.optional),
-                "kid_optional": [bool(k.optional) for k in el.children] if hasattr(el, "children") else []}
+                "kid_optional": [bool(k.optional) for k in el.children] if hasattr(el, "children") else [],
+                "kid_valid": [bool(k.valid) for k in el.children] if hasattr(el, "children") else []}
     except Exception as e:  # noqa: BLE001
         return type(e).__name__
 
@@ -286,6 +289,9 @@ def oracle_chain(case):
     real = Real(case)
     for n_step, step in enumerate(case["steps"]):
         n = len(real.classes)
+        if step["c"] >= n or any(j >= n for j in step.get("members", [])):
+            real.do(step)          # the generator over-estimated the number of classes: a no-op "BadCase"
+            continue
         before = real.snapshot_all()
         raw_before = real.raw_identities()
         lazy = (step["t"] == "inst" and real.kinds[step["c"]] == "compound"
@@ -355,49 +361,46 @@ def oracle_chain(case):
                               "expected": {}, "observed": extra})
         if fails:
             return fails
-    # history independence: the same chain without instantiations gives classes that behave the same
+    # history independence: the same chain (i) without any instantiation and (ii) without the plain
+    # instantiations only gives classes — including the classes a compound derives on the fly for an
+    # overriding instantiation — that behave the same
     if any(s["t"] == "inst" for s in case["steps"]):
-        with_inst = _final_behaviour(case, True)
-        without = _final_behaviour(case, False)
-        for key in without:
-            if with_inst.get(key) != without[key]:
-                fails.append({"clause": "history-independent", "step": None, "class": key, "attrs": [],
-                              "expected": without[key], "observed": with_inst.get(key)})
-                break
+        full = _final_behaviour(case, lambda st: True)
+        for label, keep in (("no instantiation", lambda st: False),
+                            ("no plain instantiation", lambda st: bool(st["kw"]))):
+            other = _final_behaviour(case, keep)
+            for key in other:
+                if full.get(key) != other[key]:
+                    fails.append({"clause": "history-independent", "step": key, "class": key, "attrs": [label],
+                                  "expected": other[key], "observed": full.get(key)})
+                    return fails
     return fails
 
 
-def _final_behaviour(case, keep_inst):
-    """behaviour of every class created by a constructor step, keyed by the step index that made it"""
+def _final_behaviour(case, keep):
+    """behaviour of every class created by a step (constructor call, or overriding instantiation of a
+    compound), keyed by the index of the step that made it; instantiations are run only if keep(step)"""
     real = Real(case)
+    makers = _all_makers(case)
     made = {-1: 0}
+
+    def tr(cid):
+        return made.get(-1 if cid == 0 else makers.get(cid))
+
     for n_step, step in enumerate(case["steps"]):
-        if step["t"] == "inst":
-            if keep_inst:
-                real.do(step)
+        if step["t"] == "inst" and not keep(step):
             continue
         n = len(real.classes)
-        # class ids of later steps refer to the numbering *with* instantiations; translate
+        # class ids refer to the numbering of the full history; translate
         step2 = dict(step)
-        step2["c"] = made.get(_maker(case, step["c"]), None)
+        step2["c"] = tr(step["c"])
         if step2["c"] is None:
             continue
         if step["t"] == "of":
-            mem = [made.get(_maker(case, j)) for j in step["members"]]
+            mem = [tr(j) for j in step["members"]]
             if None in mem:
                 continue
             step2["members"] = mem
-        if step["t"] == "using":
-            kw2 = []
-            ok = True
-            for a, v in step["kw"]:
-                if a == "field_schema":
-                    v = [made.get(_maker(case, j)) for j in v]
-                    ok = ok and None not in v
-                kw2.append([a, v])
-            if not ok:
-                continue
-            step2["kw"] = kw2
         r, _ = real.do(step2)
         if r == "ok" and len(real.classes) == n + 1:
             made[n_step] = n
@@ -406,19 +409,21 @@ def _final_behaviour(case, keep_inst):
         snap = real.snapshot(cid, {})
         snap.pop("ids"), snap.pop("parent")
         for a in ("field_schema", "member_schema"):
-            snap.pop(a, None)     # refer to class ids; compared through behaviour
+            snap.pop(a, None)     # refer to class ids / preparation state; compared through behaviour
         out[n_step] = {"attrs": snap, "behaviour": _behaviour(real.classes[cid])}
     return out
 
 
-def _maker(case, cid):
-    """index of the step that created class `cid` (in the numbering with instantiations), -1 for class 0,
-    None for classes made on the fly by a compound instantiation"""
-    if cid == 0:
-        return -1
-    n = 1
-    real_like = _class_makers(case)
-    return real_like.get(cid)
+def _all_makers(case):
+    """class id (numbering of the full history) -> index of the step that created it"""
+    real = Real(case)
+    makers = {}
+    for n_step, step in enumerate(case["steps"]):
+        n = len(real.classes)
+        real.do(step)
+        if len(real.classes) == n + 1:
+            makers[n] = n_step
+    return makers
 
 
 _MAKERS_CACHE = {}
@@ -482,6 +487,47 @@ def _rand_vs(rng):
     return [rng.randint(1, 6) for _ in range(rng.randint(0, 3))]
 
 
+def _rand_members(rng):
+    """0-3 (rarely 4) user-supplied members of a DateYYYYMMDD"""
+    k = rng.choice([0, 1, 1, 1, 2, 2, 2, 3, 3, 4])
+    return [[rng.choice(["y", "m", "d", "year", "month", "day", "q"]) + (str(i) if rng.random() < 0.5 else ""),
+             rng.random() < 0.4] for i in range(k)]
+
+
+def gen_compound_chain(rng):
+    """DateYYYYMMDD with 0-3 user-supplied members; plain/overriding instantiations and
+    using(optional=…) derivations at every point of the chain"""
+    steps = [{"t": "using", "c": 0, "kw": [["field_schema", _rand_members(rng)]] +
+              ([["optional", rng.random() < 0.5]] if rng.random() < 0.4 else [])}]
+    n = 2
+    for _ in range(rng.randint(2, 10)):
+        c = rng.randrange(n)
+        r = rng.random()
+        if r < 0.30:
+            steps.append({"t": "inst", "c": c, "kw": []})
+        elif r < 0.50:
+            kw = [["optional", rng.random() < 0.6]]
+            if rng.random() < 0.2:
+                kw.append(["field_schema", _rand_members(rng)])
+            if rng.random() < 0.2:
+                kw.append(["name", rng.choice(NAMES)])
+            steps.append({"t": "inst", "c": c, "kw": kw})
+            n += 1
+        elif r < 0.80:
+            kw = [["optional", rng.random() < 0.6]]
+            if rng.random() < 0.15:
+                kw.append(["field_schema", _rand_members(rng)])
+            steps.append({"t": "using", "c": c, "kw": kw})
+            n += 1
+        elif r < 0.9:
+            steps.append({"t": "named", "c": c, "name": rng.choice(NAMES)})
+            n += 1
+        else:
+            steps.append({"t": "using", "c": c, "kw": [["field_schema", _rand_members(rng)]]})
+            n += 1
+    return {"kind": "chain", "base": "DateYYYYMMDD", "steps": steps}
+
+
 def _rand_kw(rng, kind, n_classes, for_inst):
     kw = []
     seen = set()
@@ -489,6 +535,8 @@ def _rand_kw(rng, kind, n_classes, for_inst):
         choices = ["name", "optional", "default", "validators", "properties"]
         if kind in ("dict", "seq", "compound"):
             choices.append("descent_validators")
+        if kind == "compound":
+            choices += ["field_schema", "optional", "optional"]
         if rng.random() < 0.05:
             choices = ["bogus"]
         a = rng.choice(choices)
@@ -505,6 +553,8 @@ def _rand_kw(rng, kind, n_classes, for_inst):
             v = _rand_vs(rng)
         elif a == "properties":
             v = [[rng.choice(KEYS), rng.randint(0, 5)] for _ in range(rng.randint(0, 2))]
+        elif a == "field_schema":
+            v = _rand_members(rng)
         else:
             v = 1
         kw.append([a, v])
@@ -610,6 +660,8 @@ class C06(Property):
         "frame", "frame_partial", "frame_observe", "frame_of_pre", "step_pre", "instance_local",
         "schema_fields", "addUnseen_spec", "addAndOverwrite_spec",
         "WF_of_wfB", "C06_full_fails",
+        "userFields_preparedFields", "compound_fields_history_independent", "compoundInit_stores",
+        "compoundInit_preparedFrom", "lookup_ne_preparedFrom",
     )]
     level_text = "proof"
     level_note = ("frame (every non-lazy-preparation step leaves every observable attribute and property of every "
@@ -617,7 +669,9 @@ class C06(Property):
                   "proved for all stores/inputs of the model; the unrestricted frame statement C06_Full is false because of "
                   "the lazy preparation of compound types (negation witness); well-formedness of reachable stores, the frame "
                   "condition for lazy preparation (all attributes but field_schema) and history independence are checked by "
-                  "the runner/oracle on every generated chain, not proved")
+                  "the runner/oracle on every generated chain, not proved; the regeneration rule of DateYYYYMMDD (member list after "
+                  "preparation = user-supplied members + year/month/day generated from the class's own optional, whether or "
+                  "not an ancestor was prepared before) is proved as compound_fields_history_independent")
     technique = "Lean 4 model (class store + heap of list objects) + frame theorem by store extension; differential testing"
     trusted_base = [
         "Python's class machinery (type(), attribute lookup along a single-inheritance MRO, instance __dict__) is the "
@@ -632,7 +686,9 @@ class C06(Property):
     rule = ("chains of 2-12 constructor calls (named, using with 1-3 overrides incl. validators/properties/unknown "
             "attribute, validated_by, including_validators with positions -6..9, descent variants, with_properties, of, "
             "valued, to) and plain/overriding instantiations at random points, starting from a fresh subclass of each of "
-            "9 built-in types (DateYYYYMMDD = lazily prepared compound); plus declarative Schema hierarchies of 1-5 classes "
+            "9 built-in types (DateYYYYMMDD = lazily prepared compound); 15% of the cases are DateYYYYMMDD chains with 0-4 "
+            "user-supplied Integer members (using(field_schema=[…]), some optional) interleaved with plain/overriding "
+            "instantiations and using(optional=…) at every point; plus declarative Schema hierarchies of 1-5 classes "
             "with 0-3 bases, explicit field_schema lists and attribute declarations over 4 overlapping names; non-trivial = "
             ">= 3 successful derivations and one instantiation, or a schema with a multi-base class; distinct = distinct "
             "canonical case JSON")
@@ -648,6 +704,22 @@ class C06(Property):
             {"t": "inst", "c": 1, "kw": []}]})
         out.append({"kind": "chain", "base": "DateYYYYMMDD", "steps": [
             {"t": "inst", "c": 0, "kw": []}, {"t": "inst", "c": 0, "kw": [["optional", True]]}]})
+        # seeded mutation C06 "keep all unless fields[0] was generated": a partially specified date is
+        # instantiated, then derived with using(optional=True) / overridden at instantiation — the derived
+        # classes must regenerate month/day from their own `optional`
+        out.append({"kind": "chain", "base": "DateYYYYMMDD", "steps": [
+            {"t": "named", "c": 0, "name": "when"},
+            {"t": "using", "c": 1, "kw": [["field_schema", [["y", True]]]]},
+            {"t": "inst", "c": 2, "kw": []},
+            {"t": "using", "c": 2, "kw": [["optional", True]]},
+            {"t": "inst", "c": 3, "kw": []},
+            {"t": "inst", "c": 2, "kw": [["optional", True]]}]})
+        out.append({"kind": "chain", "base": "DateYYYYMMDD", "steps": [
+            {"t": "using", "c": 0, "kw": [["field_schema", [["y", False], ["m", True]]]]},
+            {"t": "inst", "c": 1, "kw": []},
+            {"t": "inst", "c": 1, "kw": [["optional", True]]},
+            {"t": "using", "c": 1, "kw": [["optional", True]]},
+            {"t": "inst", "c": 3, "kw": []}]})
         # planned drill: including_validators without the list copy
         out.append({"kind": "chain", "base": "String", "steps": [
             {"t": "validated_by", "c": 0, "vs": [1, 2]},
@@ -671,8 +743,11 @@ class C06(Property):
 
     def generate(self, rng, n, tier):
         for _ in range(n):
-            if rng.random() < 0.2:
+            r = rng.random()
+            if r < 0.2:
                 yield gen_schema(rng)
+            elif r < 0.35:
+                yield gen_compound_chain(rng)
             else:
                 yield gen_chain(rng)
 
